@@ -100,5 +100,7 @@ impl Strategy for Bfs {
 
     fn reset(&mut self) {
         self.states_queue.clear();
+        // stats are reported per run and summed by the caller
+        self.stats = McStats::default();
     }
 }
